@@ -12,12 +12,15 @@
     bool_attr_html bool_attr_xhtml bool_table_covers_html4
     doctype_unique doctype_suppressed doctype_option_wins decl_policy_html decl_policy_xhtml decl_unique
     html_roundtrip_partial xhtml_roundtrip_partial html_render_roundtrip_partial xhtml_render_roundtrip_partial
-    html_roundtrip_tree_partial xhtml_roundtrip_tree_partial
+    html_roundtrip_tree_partial xhtml_roundtrip_tree_partial html_roundtrip_tree_ns_partial
+    xhtml_roundtrip_tree_ns_partial xhtml_roundtrip_cdata_partial cdata_end_not_recovered
     rawtext_endtag_not_recovered comment_dashes_not_recovered attr_ws_not_recovered_xhtml
     markup_text_not_recovered raw_table_matches_reader normEol_id doctype_table_is_w3c
 -/
 import Genshi.Lemmas.ReaderXhtml
 import Genshi.Lemmas.ReaderTree
+import Genshi.Lemmas.ReaderTreeNs
+import Genshi.Lemmas.ReaderXhtmlCdata
 import Genshi.Lemmas.Output
 import Genshi.Lemmas.OutputFlatten
 import Genshi.Model.OutputPipeline
@@ -440,6 +443,73 @@ theorem xhtml_roundtrip_tree_partial (cache : Bool) (ns : List Node)
   rw [hc]
   have hf := filtered_forest .xhtml false true ns hok hns
   rw [xhtml_render_roundtrip_partial _ _ _ hf (xhtmlOk_forest ⟨true⟩ ns hh), xhtmlExpected_eq_assemble, piecesX_forest]
+
+/-- html, over forests all of whose elements are in one namespace `u` (XHTML in practice): the
+    flattener declares `u` on the outermost elements, html drops the declaration — the tokens read
+    back are those of the namespace-free forest. -/
+theorem html_roundtrip_tree_ns_partial (cache dropd : Bool) (u : Str) (hu : u ≠ xmlNs) (ns : List Node)
+    (hok : okList ns = true) (hns : forestUniformNs u ns = true) (hh : htmlForestOk ns = true) :
+    (render .html { strip := false, cache := cache, doctype := none, dropXmlDecl := dropd } (flattenList ns)).bind
+        (tokens false) = some (assemble (forestPieces ns)) := by
+  have hc : render .html { strip := false, cache := cache, doctype := none, dropXmlDecl := dropd } (flattenList ns) =
+      render .html { strip := false, cache := false, doctype := none, dropXmlDecl := dropd } (flattenList ns) := by
+    cases cache
+    · rfl
+    · exact Genshi.Props.C08.render_cache_irrelevant' .html false none dropd (flattenList ns)
+  rw [hc]
+  have hf := filtered_forestU .html dropd u hu ns hok hns
+  have hk := htmlOk_forestU u false ns hh
+  have hend : ((forestFu u false ns).foldl htmlEv {}).raw = false := by rw [foldl_htmlEv_raw]; exact hk.2
+  rw [html_render_roundtrip_partial _ _ _ hf hk.1 hend, htmlExpected_eq_assemble, pieces_forestU]
+
+/-- xhtml, same forests, tokenizer level: the outermost elements carry `xmlns="u"` as their first
+    attribute, everything else as in the namespace-free case. -/
+theorem xhtml_roundtrip_tree_ns_partial (cache : Bool) (u : Str) (hu : u ≠ xmlNs) (huv : attrValOkB u = true)
+    (ns : List Node) (hok : okList ns = true) (hns : forestUniformNs u ns = true)
+    (hh : xhtmlForestOk ns = true) :
+    (render .xhtml { strip := false, cache := cache, doctype := none, dropXmlDecl := true } (flattenList ns)).bind
+        (tokens true) = some (assemble (forestPiecesXU u false ns)) := by
+  have hc : render .xhtml { strip := false, cache := cache, doctype := none, dropXmlDecl := true } (flattenList ns) =
+      render .xhtml { strip := false, cache := false, doctype := none, dropXmlDecl := true } (flattenList ns) := by
+    cases cache
+    · rfl
+    · exact Genshi.Props.C08.render_cache_irrelevant' .xhtml false none true (flattenList ns)
+  rw [hc]
+  have hf := filtered_forestU .xhtml true u hu ns hok hns
+  rw [xhtml_render_roundtrip_partial _ _ _ hf (xhtmlOk_forestU ⟨true⟩ u huv false ns hh), xhtmlExpected_eq_assemble,
+    piecesX_forestU]
+
+def exForestX : List Node :=
+  [.elem ⟨xhtmlNs, ['p']⟩ [] [.elem ⟨xhtmlNs, ['b', 'r']⟩ [] [], .leaf (.text ['<'] false)]]
+
+example : okList exForestX = true ∧ forestUniformNs xhtmlNs exForestX = true ∧ xhtmlForestOk exForestX = true ∧
+    attrValOkB xhtmlNs = true ∧ xhtmlNs ≠ xmlNs := by decide
+
+example : assemble (forestPiecesXU xhtmlNs false exForestX) =
+    [.start ['p'] [(xmlns, some xhtmlNs)] false, .start ['b', 'r'] [] true, .text ['<'], .end_ ['p']] := by decide
+
+/-- xhtml with CDATA sections (events level): the content of a section is read back verbatim as
+    part of the surrounding character data (expat's view with merged text).  Hypotheses
+    (`XhtmlOkAllC`): as `XhtmlOk` outside sections; inside a section only plain text that cannot
+    close it (`cdataSafe 2`: no `]]>`, not starting with `>` or `]>`) and END_CDATA. -/
+theorem xhtml_roundtrip_cdata_partial (o : Opts) (useCache : Bool) (evs : List FEv)
+    (hok : XhtmlOkAllC o false evs) (hend : (evs.foldl xhtmlEvC {}).cd = none) :
+    tokens true (loop .xhtml o useCache {} evs).flatten = some (xhtmlExpectedC evs) := by
+  have hl : loop .xhtml o useCache {} evs = serSpec .xhtml o {} evs := by
+    cases useCache
+    · exact loop_nocache_eq_spec .xhtml o evs {}
+    · exact loop_cache_eq_spec .xhtml o evs {} (cacheOk_nil .xhtml o)
+  rw [hl]; exact xhtml_tokensC o evs hok hend
+
+example : tokens true (loop .xhtml {} true {}
+      [.start ['p'] [], .text ['a'] false, .startCdata, .text ['<', ']', ']'] false, .endCdata, .text ['&'] false,
+       .end_ ['p']]).flatten =
+    some [.start ['p'] [] false, .text ['a', '<', ']', ']', '&'], .end_ ['p']] := by decide
+
+/-- `]]>` inside a CDATA section ends it early (limit of the format) -/
+theorem cdata_end_not_recovered :
+    let evs : List FEv := [.start ['p'] [], .startCdata, .text [']', ']', '>', 'x'] false, .endCdata, .end_ ['p']]
+    tokens true (loop .xhtml {} true {} evs).flatten ≠ some (xhtmlExpectedC evs) := by decide
 
 def exForest : List Node :=
   [.elem ⟨[], ['p']⟩ [(⟨[], ['c', 'h', 'e', 'c', 'k', 'e', 'd']⟩, ['y'])]
